@@ -573,6 +573,9 @@ func (b *blockingReader) Read(p []byte) (int, error) {
 type pendingRecv struct {
 	rd   *blockingReader
 	done chan error
+	name string // what the reception announced: name, hash token, first byte
+	tok  string
+	beg  int64
 }
 
 type stageExec struct {
@@ -595,6 +598,9 @@ type stageExec struct {
 	oldLogged map[string]int64      // name|md5|renamed -> time of a record written by `oldlog`
 	prevOf    map[string]string     // name|hashtoken -> predecessor announced last for that version
 	arrivals  map[string][]arrival // name -> versions whose parts arrived, with the number of log records of the name then
+	written   map[string][][2]int64 // name -> ranges fed into the current partial since it was created
+	exempt    map[string]bool       // names to which a natural PrepareOk failure happened
+	misfed    map[string]bool // names for which some reception fed bytes other than the announced version's
 	failedAt  map[string]int // name -> op number of a `status` answer "failed" with only queries since
 	lastCrash, lastRecover, lastSettle int // op numbers of the last cut/crash, recover, settle
 	gaveUp    bool                  // cleanwaiting ran: the order may have been given up for cycles
@@ -608,7 +614,7 @@ func newStageExec() *stageExec {
 	return &stageExec{rig: rig, err: err, md5Of: map[string]string{}, tokOf: map[string]string{},
 		names: map[string]bool{}, targets: map[string]bool{}, handles: map[string]*pendingRecv{},
 		kinds: map[string]bool{}, delivered: map[string][]byte{}, versions: map[string]map[string]bool{}, corrupted: map[string]bool{},
-		acked: map[string][][2]int64{}, oldLogged: map[string]int64{}, arrivals: map[string][]arrival{}, failedAt: map[string]int{}, prevOf: map[string]string{}, confirmed: map[string]bool{}, consumed: map[string]bool{}}
+		acked: map[string][][2]int64{}, oldLogged: map[string]int64{}, written: map[string][][2]int64{}, exempt: map[string]bool{}, misfed: map[string]bool{}, arrivals: map[string][]arrival{}, failedAt: map[string]int{}, prevOf: map[string]string{}, confirmed: map[string]bool{}, consumed: map[string]bool{}}
 }
 
 func parseBodyTok(s string) ([]byte, bool) {
@@ -821,7 +827,37 @@ func (e *stageExec) do1(op []string) string {
 		name := unesc(op[1])
 		e.names[name] = true
 		before, _ := os.Stat(filepath.Join(r.root, name) + ".cmp")
+		if before != nil {
+			// hypothesis PrepareOk of record_sound (witness natural_fails_prepare): a partial (re)created under a
+			// companion that survives - the companion of a version that is in the pipeline (neither unknown nor
+			// failed) and not logged, with no partial of the announced size - loses what the companion lists;
+			// names to which that happened are exempt from the listing oracle
+			pi, perr := os.Stat(filepath.Join(r.root, name) + ".part")
+			st := r.st.VerifState(name)
+			if (perr != nil || pi.Size() != sz) && st != -1 && st != 2 {
+				logged := false
+				var c sts.Partial
+				if b, err := os.ReadFile(filepath.Join(r.root, name) + ".cmp"); err == nil && json.Unmarshal(b, &c) == nil {
+					for _, l := range e.readLog() {
+						if l.name == name && l.hash == c.Hash {
+							logged = true
+						}
+					}
+				}
+				if !logged {
+					e.misfed[name] = true
+					e.exempt[name] = true
+				}
+			}
+		}
+		partBefore, _ := os.Stat(filepath.Join(r.root, name) + ".part")
 		r.st.Prepare([]sts.Binned{&binnedPart{name: name, size: sz}})
+		if partAfter, _ := os.Stat(filepath.Join(r.root, name) + ".part"); partAfter != nil && (partBefore == nil || !os.SameFile(partBefore, partAfter)) {
+			// a fresh, zero-filled partial: nothing has been written into it yet
+			e.emu.Lock()
+			e.written[name] = nil
+			e.emu.Unlock()
+		}
 		if after, _ := os.Stat(filepath.Join(r.root, name) + ".cmp"); before != nil && after == nil {
 			// a stale companion was discarded together with the (re)created partial
 			e.emu.Lock()
@@ -839,6 +875,7 @@ func (e *stageExec) do1(op []string) string {
 		if !ok || !ok2 {
 			return "bad-op"
 		}
+		e.noteFed(p.Name, unesc(op[5]), p.Parts[0].Beg, data)
 		err := r.st.Receive(p, strings.NewReader(string(data)))
 		if err != nil {
 			if strings.Contains(err.Error(), "failed to open file") {
@@ -863,7 +900,7 @@ func (e *stageExec) do1(op []string) string {
 		if _, err := os.Stat(path + ".part"); err != nil {
 			return "err-open"
 		}
-		pr := &pendingRecv{rd: &blockingReader{data: make(chan []byte, 1)}, done: make(chan error, 1)}
+		pr := &pendingRecv{rd: &blockingReader{data: make(chan []byte, 1)}, done: make(chan error, 1), name: p.Name, tok: unesc(op[6]), beg: p.Parts[0].Beg}
 		ch := make(chan struct{})
 		r.mu.Lock()
 		r.opened[path] = ch
@@ -889,6 +926,7 @@ func (e *stageExec) do1(op []string) string {
 		if !ok2 {
 			return "bad-op"
 		}
+		e.noteFed(h.name, h.tok, h.beg, data)
 		h.rd.data <- data
 		select {
 		case err := <-h.done:
@@ -1211,6 +1249,29 @@ func (e *stageExec) do1(op []string) string {
 		var items []string
 		for _, p := range ps {
 			items = append(items, esc(p.Name)+"="+e.fmtCmp(p))
+			// C09: every range the listing claims (the sender will not send it again) is on disk byte for byte
+			tok := e.tokOfHash(p.Hash)
+			for _, rg := range p.Parts {
+				if !e.misfed[p.Name] {
+					e.oracleReceived(p.Name, tok, rg.Beg, rg.End)
+				}
+				if _, err := os.Stat(filepath.Join(r.root, p.Name) + ".part"); err == nil && !e.exempt[p.Name] && e.crashes == 0 {
+					// ... and, whatever the bytes are, was written into the CURRENT partial (the model's ghost `written`)
+					for x := rg.Beg; x < rg.End; x++ {
+						covered := false
+						for _, w := range e.written[p.Name] {
+							if w[0] <= x && x < w[1] {
+								covered = true
+								break
+							}
+						}
+						if !covered {
+							e.fails = append(e.fails, fmt.Sprintf("received-unsound: listing claims %d:%d of %s (%s) but byte %d was never written into the current partial", rg.Beg, rg.End, p.Name, tok, x))
+							break
+						}
+					}
+				}
+			}
 		}
 		return "partials{" + strings.Join(items, ";") + "}"
 	case len(op) == 1 && op[0] == "observe":
@@ -1627,6 +1688,20 @@ func (e *stageExec) oracleClean(before, after map[string][]byte) {
 }
 
 // noteAck remembers that the reception of a part was acknowledged (Receive returned nil).
+// noteFed: the bytes a reception feeds differ from the announced version's bytes (corruption in transit, a wrong
+// announced hash): what is on record for that name can then not be compared with the announced body.
+func (e *stageExec) noteFed(name, tok string, beg int64, data []byte) {
+	e.emu.Lock()
+	e.written[name] = append(e.written[name], [2]int64{beg, beg + int64(len(data))})
+	e.emu.Unlock()
+	body, ok := parseBodyTok(strings.TrimPrefix(tok, "b"))
+	if !strings.HasPrefix(tok, "b") || !ok || beg < 0 || int64(len(body)) < beg+int64(len(data)) || string(body[beg:beg+int64(len(data))]) != string(data) {
+		e.emu.Lock()
+		e.misfed[name] = true
+		e.emu.Unlock()
+	}
+}
+
 func (e *stageExec) noteAck(p *sts.Partial) {
 	e.emu.Lock()
 	defer e.emu.Unlock()
